@@ -10,8 +10,9 @@ def run(tier='quick', seed=0, nproc=16):
   res.append(common.guard(c01.nested_containers_case))
   res.append(common.guard(c01.equal_leaves_case))
   res.append(common.guard(c01.kwargs_order_case))
+  res.append(common.guard(c01.posonly_name_in_kwargs_case))
   return common.merge(
-      res, 'layerb.c01',
+      res, 'layerb.c01', keyfn=lambda v: v.get('fkey'),
       rule='exhaustive: signature shape (<=%d params, every default pattern) x every subset of '
            'parameters set x varargs x extra kwargs x {Config, Partial}; recording callable; oracle = '
            'expected binding from the reference model, cross-checked by a real direct call; '
